@@ -70,8 +70,8 @@ AG_FLAGS = ["-unwind", "64", "-concrete-clock", "-stub", "(*@/internal/sock.Clie
 AG_ASSUME = ["AGENT harness: the real agent.Run end to end over a recording history store, the socket/listener model, a scripted executor; reporter (console table, mail) and Node.setup/teardown stubbed"]
 
 
-def ag_ob(name, entry, prefixes, must, bounds):
-    return {"name": name, "pkg": "./internal/agent", "replay": "R1t", "labels_unordered": True, "label_prefixes": prefixes, "must_assert": must,
+def ag_ob(name, entry, prefixes, must, bounds, must_reach=None):
+    return {"must_reach": ["end"] if must_reach is None else must_reach, "name": name, "pkg": "./internal/agent", "replay": "R1t", "labels_unordered": True, "label_prefixes": prefixes, "must_assert": must,
             "quick": {"entry": entry, "flags": AG_FLAGS, "sample_paths": 1, "bounds": dict({"D": 0}, **bounds)}}
 
 
@@ -324,11 +324,14 @@ PROPS = {    "C01": {
              "must_assert": ["C16.refuse/second-start-is-refused-while-a-run-is-active", "C16.refuse/hung-peer-is-not-overrun", "C16.refuse/start-proceeds-when-no-run-is-active"],
              "quick": {"entry": "VerifHarness_C16_refuse", "sample_paths": 2,
                        "flags": ["-unwind", "32", "-concrete-clock", "-stub", "(*@/internal/sock.Client).Request=sock-request", "-stub", "@/internal/persistence/model.StatusFromJSON=json-lookup"],
-                       "bounds": {"socket": "no listener | first run answers (status running/failed/canceled/finished) | peer hangs", "steps": 1, "handlers": "onExit"}}},
+                       "bounds": {"socket": "no socket file | first run answers (status running/failed/canceled/finished) | peer hangs | stale socket file", "steps": 1, "handlers": "onExit"}}},
+            ag_ob("C16.race", "VerifHarness_C16_race", ["C16."], ["C16.race/two-simultaneous-starts-never-both-execute-steps"], {"agents": 2, "steps": 1, "instant_of_second_start": "between the first run's probe and its bind (forced)"},
+                  must_reach=[]),  # every path of this obligation ends in the listed finding F16
         ],
-        "assumptions": ["the real agent.Run and client.GetCurrentStatus run over the socket model ((*sock.Client).Request summarised: dial failure / registered payload / timeout)",
+        "assumptions": ["C16.race: two real agent.Run calls on one DAG file; run A is parked (channel in its history fake) after its socket probe and before its bind while run B starts and runs; unix-socket listener model: bind fails iff the path exists, unlink orphans the listener",
+                        "the real agent.Run and client.GetCurrentStatus run over the socket model ((*sock.Client).Request summarised: dial failure / registered payload / timeout)",
                         "history store is a recording fake whose Open ends the accepting path once it has been reached"],
-        "outside_claim": COMMON_OUTSIDE + ["two starts issued at the same moment (C16.race: probe -> history open -> unlink+bind is not atomic; needs the two-agent SOCK world, not built: anticipated finding F16 is therefore undecided)",
+        "outside_claim": COMMON_OUTSIDE + ["a second start at every other instant of the first run's start-up (C16.race forces one: between probe and bind)",
                                            "that the active run's socket keeps answering and its history stays intact during the refused start beyond 'no history call is made'", "retry of the same file"],
     },
     "C17": {
